@@ -67,14 +67,27 @@ def whole_object_save_and_restore(ctx):
     ctx.check(good, 'AbstractSolver.SaveSolver', 'dill.dump(self, f) once', 'SaveSolver no longer pickles the whole solver object in one dill.dump(self, ...)', f, dumps[0] if dumps else f.node)
     g = ctx.func(AS + '.__load_state')
     sn = selfname_of(g)
-    ups = calls_where(g.node, lambda c: ''.join(unparse(c.func).split()) == '%s.__dict__.update' % sn)
-    good = len(ups) == 1 and ups[0].args and ''.join(unparse(ups[0].args[0]).split()) == '%s.__dict__' % g.args()[1]
+    src_p = g.args()[1]
+    bld = T.Builder()
+    ups = []
+    for st in stmts_of(g.node):
+        for c in calls_where(st, lambda c: isinstance(c.func, ast.Attribute) and c.func.attr == 'update', include_lambda=False):
+            ups.append((c, T.simp(bld.t(c.func.value)), [T.simp(bld.t(a)) for a in c.args]))
+        if isinstance(st, ast.Assign) and all(isinstance(tg, ast.Name) for tg in st.targets):
+            bld.exec_stmt(st)
+    good = len(ups) == 1 and ups[0][1] == ('attr', ('name', sn), '__dict__') and ups[0][2][:1] == [('attr', ('name', src_p), '__dict__')]
     ctx.check(good, 'AbstractSolver.__load_state', 'self.__dict__.update(solver.__dict__, **kwds)',
-              '__load_state no longer transplants the whole instance dict', g, ups[0] if ups else g.node)
+              '__load_state no longer transplants the whole instance dict', g, ups[0][0] if ups else g.node)
+    # LoadSolver (and the private helpers it calls): a fresh instance of the recorded type, imported from mystic.solvers, then the transplant
     h = ctx.func('mystic.solvers:LoadSolver')
-    src = unparse(h.node)
-    ctx.check('solver._type' in src and 'from mystic.solvers import %s' in src and '_AbstractSolver__load_state(solver' in ''.join(src.split()).replace('self.', ''),
-              'LoadSolver', 'instantiates solver._type from mystic.solvers, then transplants the state',
+    scope = [h]
+    for tgt, node in ctx.cg.callees(h):
+        if hasattr(tgt, 'anchor') and tgt.module is h.module and tgt not in scope:
+            scope.append(ctx.touch(tgt))
+    text = ' '.join(unparse(x.node) for x in scope)
+    recorded = '._type' in text and 'from mystic.solvers import %s' in text
+    transplant = any(calls_where(x.node, lambda c: isinstance(c.func, ast.Attribute) and c.func.attr == '_AbstractSolver__load_state', include_lambda=False) for x in scope)
+    ctx.check(recorded and transplant, 'LoadSolver', 'instantiates the recorded _type from mystic.solvers, then transplants the state',
               'LoadSolver no longer rebuilds an instance of the recorded type from mystic.solvers', h, h.node)
     # exhaustiveness: every class with a concrete _Step is bound in mystic.solvers
     solvers_mod = ctx.model.module('mystic.solvers')
@@ -343,13 +356,17 @@ def copies_keep_shared_cells_shared(ctx):
     for st in f.node.body:
         if isinstance(st, ast.Assign) and isinstance(st.targets[0], ast.Name) and isinstance(st.value, ast.Tuple) and \
                 all(isinstance(e, ast.Constant) and isinstance(e.value, str) for e in st.value.elts):
-            group = set(e.value for e in st.value.elts)
-            gvar = st.targets[0].id
+            if group is None:
+                group = set(e.value for e in st.value.elts)
+                gvar = st.targets[0].id
     together = False
     if group is not None:
         for st in f.node.body:
-            if isinstance(st, ast.Assign) and isinstance(st.targets[0], ast.Name) and st.targets[0].id == gvar and isinstance(st.value, ast.Call) \
-                    and callee_text(st.value) in ('dill.copy', 'copy.deepcopy') and st.value.args and 'in %s' % gvar in unparse(st.value.args[0]):
+            # one copy call over the instance dict filtered by the group (whatever local receives it, dict(...) or {k: v ...})
+            if isinstance(st, ast.Assign) and isinstance(st.targets[0], ast.Name) and isinstance(st.value, ast.Call) \
+                    and callee_text(st.value) in ('dill.copy', 'copy.deepcopy') and st.value.args and \
+                    any(isinstance(c_, ast.Compare) and isinstance(c_.ops[0], ast.In) and isinstance(c_.comparators[0], ast.Name) and c_.comparators[0].id == gvar
+                        for c_ in ast.walk(st.value.args[0])) and '__dict__' in unparse(st.value.args[0]):
                 together = True
     # NOTE: marking the copy not-live instead is NOT accepted: re-decorating a solver that has already run is not
     # neutral (Nelder-Mead rebuilds its simplex, DE re-clips members with random draws under strict ranges)
@@ -399,7 +416,12 @@ def restart_file_registered(ctx):
                     late.append(st)
         ctx.check(not late, 'LoadSolver#no-late-writes', 'after the transplant only _state is registered (and the load is logged)',
                   'LoadSolver modifies the restored solver after transplanting its state: %s' % (norm_stmt(late[0]) if late else ''), h, late[0] if late else h.node)
-    sets = [s for s in h.node.body if isinstance(s, ast.Assign) and ''.join(unparse(s.targets[0]).split()) == 'self._state' and unparse(s.value) == 'filename']
-    loads = [s for s in h.node.body if isinstance(s, ast.Expr) and '__load_state' in unparse(s)]
-    ctx.check(bool(sets) and bool(loads) and sets[0].lineno > loads[0].lineno, 'LoadSolver#_state', 'self._state = filename after the state transplant',
+    # the object the state was transplanted into (whatever the local is called) gets ._state = <the file it was read from>
+    loads = [s for s in h.node.body if isinstance(s, ast.Expr) and isinstance(s.value, ast.Call) and isinstance(s.value.func, ast.Attribute)
+             and s.value.func.attr.endswith('__load_state')]
+    recv = unparse(loads[0].value.func.value) if loads else None
+    fname = h.args()[0] if h.args() else 'filename'
+    sets = [s for s in h.node.body if isinstance(s, ast.Assign) and isinstance(s.targets[0], ast.Attribute) and s.targets[0].attr == '_state'
+            and unparse(s.targets[0].value) == recv and isinstance(s.value, ast.Name) and s.value.id == fname]
+    ctx.check(bool(sets) and bool(loads) and sets[0].lineno > loads[0].lineno, 'LoadSolver#_state', '<restored>._state = filename after the state transplant',
               'LoadSolver does not register the restart file on the restored solver', h, sets[0] if sets else h.node)
